@@ -83,7 +83,8 @@ func (content Content) Get(mime string) *MediaType {
 		// string for later wildcard searches.
 		i = len(mime)
 	}
-	mime = mime[:i]
+	// (optional whitespace is allowed before the ";" of a parameter, RFC 7231 section 3.1.1.1)
+	mime = strings.TrimSpace(mime[:i])
 	if v := content[mime]; v != nil {
 		return v
 	}
